@@ -34,19 +34,19 @@ Print Assumptions C12_deterministic.
        parse_bytes il id (print_full l ds1 ++ c) = Err pos k defs ->
        prefix (elaborate_full l ds1) defs /\ length (print_full l ds1) <= offset pos.
 
-   PROVED (below): for the source class of Dbc/Printer.v (the kinds listed in Properties/C04.v;
-   plain layout) and every continuation [c] that is empty or still begins with an identifier other
+   PROVED (below): for the source class of Dbc/Printer.v (the kinds and layouts listed in
+   Properties/C04.v: line-end run [cr], blank lines before the definitions) and every continuation [c] that is empty or still begins with an identifier other
    than SG_ (which would continue a preceding BO_) followed by an ASCII non-identifier character (the
    first token of the corrupted definition is scannable). Without that side condition the statement is false of the code by design of the one-token lookahead: an
    illegal byte directly after a BS_, NS_, BO_ or SG_ definition is raised while that definition
    peeks for its optional continuation, before it is appended to Defs(). *)
-Theorem C12_error_local_partial : forall (il id : Z -> bool) (ds1 : list sdef) (c : list Z) pos k defs,
-  wf_file ds1 -> Forall (fun b => 0 <= b < 256) c ->
+Theorem C12_error_local_partial : forall (il id : Z -> bool) (cr : list Z) (its1 : list item) (c : list Z) pos k defs,
+  cr_ok cr -> wf_items [] its1 -> Forall (fun b => 0 <= b < 256) c ->
   (c = [] \/ exists kw ch r, c = kw ++ ch :: r /\ is_ident kw /\ ascii ch /\ idc ch = false
                             /\ bytes_eqb kw kw_signal = false) ->
-  parse_bytes il id (print ds1 ++ c) = Err pos k defs ->
-  (exists more, defs = elaborate ds1 ++ more)
-  /\ Z.of_nat (List.length (print ds1)) <= p_offset pos <= Z.of_nat (List.length (print ds1 ++ c)).
+  parse_bytes il id (print_items cr its1 ++ c) = Err pos k defs ->
+  (exists more, defs = elaborate_file cr its1 ++ more)
+  /\ Z.of_nat (List.length (print_items cr its1)) <= p_offset pos <= Z.of_nat (List.length (print_items cr its1 ++ c)).
 Proof. exact error_local_partial. Qed.
 Print Assumptions C12_error_local_partial.
 
@@ -68,10 +68,11 @@ Theorem C12_error_local_lookahead_refuted : forall il id,
   /\ parse_bytes_old il id (txt ("BO_ 1 M: 8 N" ++ LF) ++ [0]) = Err (at_ 2 1 13) EScanNul [].
 Proof. exact lookahead_drops_message. Qed.
 
-(** non-vacuity of the locality hypotheses: ds1 = [BS_:], c = "CM_ $" (identifier CM_, then a space) *)
+(** non-vacuity of the locality hypotheses: an empty line, then "BS_:" with a CRLF line end, c = "CM_ $"
+    (identifier CM_, then a space) *)
 Example C12_error_local_nonvacuous : forall il id,
-  parse_bytes il id (print [SBitTiming None] ++ [67; 77; 95; 32; 36])
-  = Err {| p_line := 2; p_column := 5; p_offset := 9 |} ESyntax (elaborate [SBitTiming None]).
+  parse_bytes il id (print_items [13] [([10], SBitTiming None)] ++ [67; 77; 95; 32; 36])
+  = Err {| p_line := 3; p_column := 5; p_offset := 11 |} ESyntax (elaborate_file [13] [([10], SBitTiming None)]).
 Proof. exact error_local_instance. Qed.
 
 (** non-vacuity: an error outcome exists (so the position clause is not vacuous), and a success *)
